@@ -27,10 +27,11 @@ pub enum Kind {
     LitClause,
     LitConj,
     PredClause,
+    ViewClause,
     Cumulative,
 }
 
-pub const ALL_KINDS: [Kind; 21] = [
+pub const ALL_KINDS: [Kind; 22] = [
     Kind::LinLe,
     Kind::LinEq,
     Kind::LinNe,
@@ -51,11 +52,12 @@ pub const ALL_KINDS: [Kind; 21] = [
     Kind::LitClause,
     Kind::LitConj,
     Kind::PredClause,
+    Kind::ViewClause,
     Kind::Cumulative,
 ];
 
 /// The arithmetic / global kinds without cumulative (which has its own property and findings).
-pub const CORE_KINDS: [Kind; 20] = [
+pub const CORE_KINDS: [Kind; 21] = [
     Kind::LinLe,
     Kind::LinEq,
     Kind::LinNe,
@@ -76,6 +78,7 @@ pub const CORE_KINDS: [Kind; 20] = [
     Kind::LitClause,
     Kind::LitConj,
     Kind::PredClause,
+    Kind::ViewClause,
 ];
 
 /// The swarm configuration of one run: which dimensions are on.
@@ -329,7 +332,45 @@ impl ModelGen<'_> {
             }
             Kind::PredClause => {
                 let k = self.rng.range(1, 3) as usize;
-                Con::PredClause((0..k).map(|_| self.pred()).collect())
+                // clauses whose literals are all equalities (or all disequalities) over interior
+                // values are watched through one kind of watcher only; they get their own share
+                match self.rng.below(5) {
+                    0 | 1 => Con::PredClause(
+                        (0..k)
+                            .map(|_| {
+                                let var = self.rng.below(n);
+                                Pred { var, k: Pk::Eq, val: *self.rng.pick(&self.vars[var].values) }
+                            })
+                            .collect(),
+                    ),
+                    2 => Con::PredClause(
+                        (0..k)
+                            .map(|_| {
+                                let var = self.rng.below(n);
+                                Pred { var, k: Pk::Ne, val: *self.rng.pick(&self.vars[var].values) }
+                            })
+                            .collect(),
+                    ),
+                    _ => Con::PredClause((0..k).map(|_| self.pred()).collect()),
+                }
+            }
+            Kind::ViewClause => {
+                let k = self.rng.range(1, 3) as usize;
+                let views = (0..k).map(|_| self.rng.below(n)).collect::<Vec<_>>();
+                Con::ViewClause(
+                    views
+                        .into_iter()
+                        .map(|var| {
+                            let scale = *self.rng.pick(&[1, -1, 2, -2, 3, -3]);
+                            let off = self.rng.range32(-3, 3);
+                            let view = View { var, scale, off };
+                            // values on and off the image of the view (e.g. [2x == 3])
+                            let x = *self.rng.pick(&self.vars[var].values);
+                            let val = view.eval_value(x) as i32 + self.rng.range32(-1, 1);
+                            (view, *self.rng.pick(&Pk::ALL), val)
+                        })
+                        .collect(),
+                )
             }
             Kind::Cumulative => {
                 let k = self.arity(1, 4);
@@ -356,7 +397,7 @@ impl ModelGen<'_> {
         for _ in 0..30 {
             let kind = *self.rng.pick(&self.sw.kinds);
             let Some(mut c) = self.base(kind) else { continue };
-            if self.rng.chance(self.sw.reif_rate) && kind != Kind::PredClause {
+            if self.rng.chance(self.sw.reif_rate) && kind != Kind::PredClause && kind != Kind::ViewClause {
                 let bools = self.bools();
                 let negatable = c.negatable();
                 let roll = self.rng.below(4);
